@@ -90,6 +90,10 @@ FIXED += [
 OPEN = [
     ("C03", "defined-binary-op-with-dotted-right", "a defined binary operator with a dotted operator or logical literal to its right at the same parenthesis level is not parsed (Expr.match splits at the right-most .word. and gives up if that one is intrinsic)",
      {"mode": "expr", "text": "a .x. b .and. c", "expected": "(a.x.(b.and.c))", "context": "expr", "known": True}),
+    ("C03", "operator-like-name-between-dotted-operators", "an operand named like the word of a dotted operator (ge, or, eq, ...) with a dotted operator on each side is rejected: '. ge .' inside '.neg. ge .lt. x' is taken for the operator .GE. (patterns allow blanks inside dotted operators)",
+     {"mode": "expr", "text": "lt .ge. and .and. ne", "expected": "((lt.ge.and).and.ne)", "context": "expr", "oplike": True}),
+    ("C02", "deviation:label-leading-zeros", "a statement label written with leading zeros (010) is printed without them (10) while references keep them: labels are not reproduced character for character",
+     {"mode": "source", "std": "f2003", "key": "deviation:label-leading-zeros", "text": "program p\n010 continue\nend program p\n", "expected": "PROGRAM p\n010 CONTINUE\nEND PROGRAM p"}),
     ("C02", "deviation:numeric-literal-case", "the exponent letter of real literals and the digits of BOZ literals are upper-cased (1.0e5 -> 1.0E5, z'1f' -> Z'1F'); the statement demands numeric literals character for character", None),
     ("C02", "deviation:char-selector-order", "CHARACTER(KIND=k, LEN=n) is printed LEN first: tokens reordered, not a listed canonicalisation", None),
     ("C02", "deviation:blank-common-slashes", "COMMON a, b is printed COMMON // a, b: tokens invented, not a listed canonicalisation", None),
@@ -125,6 +129,10 @@ OPEN = [
     ("C08", "accepted:delete-paren@use", "USE m, ONLY: OPERATOR(==, OPERATOR(.dot.) with a missing ')' is accepted", c08(wrap("  use m, only: operator(==, operator(.dot.)"), "delete-paren@use")),
     ("C08", "accepted:rename-construct-name@end_do", "a labelled DO construct closed by 'label END DO other_name' is accepted (no name check for Block_Label_Do_Construct)", c08(wrap("  nm: do 10 i = 1, 2\n  10 end do nm_zz"), "rename-construct-name@end_do")),
     ("C08", "accepted:delete-opener@do", "a labelled DO closed by an unlabelled END DO (with the labelled statement following) is accepted", c08(wrap("  do 46 k = 1, 3\n    exit\n  end do\n  46 continue"), "delete-opener@do")),
+    ("C08", "accepted:delete-opener@subroutine", "same mechanism as delete-opener@function: statements directly after CONTAINS in a subprogram are accepted",
+     c08("subroutine f()\n  contains\n  integer :: a\n  a = 1\nend subroutine\n", "delete-opener@subroutine")),
+    ("C08", "accepted:delete-paren@typedecl", "a type declaration with INTENT(...) followed by an attribute that lost its opening parenthesis (dimension3)) is accepted",
+     c08(wrap("  integer, intent(in), dimension3) :: vf_a"), "delete-paren@typedecl")),
     ("C08", "accepted:delete-opener@function", "specification and executable statements directly after CONTAINS in a subprogram are accepted", c08("function f()\n  contains\n  integer :: a\n  a = 1\nend function\n", "delete-opener@function")),
     ("C09", "tables-left-behind", "symbol tables of units matched before the failing unit of the same source stay behind (and a failing PROGRAM-less main program removes a 'fparser2:main_program' table made by an earlier parse): no transactional clean-up",
      {"mode": "leak", "text": "module a\n  integer :: sin\nend module a\nmodule b\n  x = = 1\nend module b\n"}),
